@@ -3,16 +3,21 @@ package c09
 
 import (
 	"bytes"
+	"context"
 	"encoding/json"
 	"fmt"
 	"strings"
+	"time"
 
 	"github.com/jamf/regatta/regattapb"
+	"github.com/jamf/regatta/regattaserver"
 	"github.com/jamf/regatta/storage/table/fsm"
 	"github.com/jamf/regatta/util/iter"
 	sm "github.com/lni/dragonboat/v4/statemachine"
+	"google.golang.org/grpc"
 
 	. "verif/harness/cmdx"
+	"verif/harness/engx"
 	"verif/harness/evid"
 	"verif/harness/fsmx"
 	"verif/harness/par"
@@ -321,7 +326,7 @@ func Run(r *evid.Run) {
 	if r.Thorough() {
 		maxSized = 5
 	}
-	r.Rule(fmt.Sprintf("(small) all 64 subsets of 6 prefix-related keys x all 100 bound pairs over 10 bounds incl. the wildcard x every limit 0..n+1 x {full, keys-only, count-only}, each as unary Lookup and as streamed iterator, compared with the sorted-map model; (sized) every content of 1..%d pairs with value sizes from {1KiB,1MiB,2MiB-1KiB,2MiB} in every order x every limit x 3 forms: stream concatenation, per-message flags/counts, encoded size < 4MiB, unary prefix + truthful more; (paging) for sized contents, one write applied between any two pulls. Non-trivial: the read returned at least one pair or count>0; distinct = distinct renderings of all answers of a content", maxSized))
+	r.Rule(fmt.Sprintf("(small) all 64 subsets of 6 prefix-related keys x all 100 bound pairs over 10 bounds incl. the wildcard x every limit 0..n+1 x {full, keys-only, count-only}, each as unary Lookup and as streamed iterator, compared with the sorted-map model; (sized) every content of 1..%d pairs with value sizes from {1KiB,1MiB,2MiB-1KiB,2MiB} in every order x every limit x 3 forms: stream concatenation, per-message flags/counts, encoded size < 4MiB, unary prefix + truthful more; (paging) for sized contents, one write applied between any two pulls; (api) 4 small and 3 sized contents on a real storage.Engine, every bound pair x limit x form x {serializable, linearizable} through the real KVServer.Range and KVServer.IterateRange (recording stream): content, counts, more flags, headers, message sizes. Non-trivial: the read returned at least one pair or count>0; distinct = distinct renderings of all answers of a content", maxSized))
 	// small
 	var evals int64
 	par.For(64, r.Expired, func(i int64) {
@@ -381,6 +386,7 @@ func Run(r *evid.Run) {
 	if pdone < int64(len(pcases)) {
 		r.Cap(fmt.Sprintf("deadline: %d of %d paging cases", pdone, len(pcases)))
 	}
+	runAPI(r)
 	r.Extra("small_contents", 64)
 	r.Extra("sized_contents", done)
 	r.Extra("paging_cases", pdone)
@@ -411,4 +417,146 @@ func Replay(raw json.RawMessage) (string, bool) {
 		}
 	}
 	return sb.String(), len(vs) == 0
+}
+
+// ---------------------------------------------------------------------------------------------
+// API level: the same reads through the real KVServer (Range and IterateRange with a recording
+// stream) over a real storage.Engine, so that the request mapping in table.go, the response mapping in
+// engine.go (kvs, count, more) and the Pull loop of IterateRange are inside the checked path.
+
+type recKV struct {
+	grpc.ServerStream
+	ctx  context.Context
+	msgs []*regattapb.RangeResponse
+}
+
+func (s *recKV) Context() context.Context { return s.ctx }
+func (s *recKV) Send(m *regattapb.RangeResponse) error {
+	s.msgs = append(s.msgs, m)
+	return nil
+}
+
+func runAPI(r *evid.Run) {
+	eng, err := engx.Start(engx.Opts{})
+	if err != nil {
+		r.Inconcl.Add(1)
+		r.Extra("api_level", "engine did not start: "+err.Error())
+		return
+	}
+	defer eng.Close()
+	srv := &regattaserver.KVServer{Storage: eng.Engine}
+	type content struct {
+		name string
+		kvs  []*regattapb.KeyValue
+	}
+	var contents []content
+	for _, mask := range []int{0, 0b000001, 0b101101, 0b111111} {
+		var kvs []*regattapb.KeyValue
+		for i, k := range keys6 {
+			if mask&(1<<i) != 0 {
+				kvs = append(kvs, &regattapb.KeyValue{Key: B(k), Value: B(fmt.Sprintf("v%d", i%3))})
+			}
+		}
+		contents = append(contents, content{fmt.Sprintf("small%d", mask), kvs})
+	}
+	for _, sizes := range [][]int{{2 << 20, 2 << 20, 1024}, {1 << 20, 1 << 20, 1 << 20, 1 << 20, 1024}, {2<<20 - 1024, 2<<20 - 1024}} {
+		contents = append(contents, content{fmt.Sprint("sized", sizes), sizedContent(sizes)})
+	}
+	ctx := context.Background()
+	for ci, c := range contents {
+		name := fmt.Sprintf("api%d", ci)
+		if _, err := eng.CreateTable(name); err != nil || eng.WaitTable(name, 20*time.Second) != nil {
+			r.Inconcl.Add(1)
+			continue
+		}
+		m := refkv.New()
+		for _, kv := range c.kvs {
+			c2, cancel := context.WithTimeout(ctx, 20*time.Second)
+			_, err := eng.Put(c2, &regattapb.PutRequest{Table: []byte(name), Key: kv.Key, Value: kv.Value})
+			cancel()
+			if err != nil {
+				r.Inconcl.Add(1)
+			}
+			m.KV[string(kv.Key)] = kv.Value
+		}
+		n := len(c.kvs)
+		bnds := bounds
+		if strings.HasPrefix(c.name, "sized") {
+			bnds = []string{"\x00", "k", "k1", "k9"}
+		}
+		for _, lo := range bnds {
+			for _, hi := range bnds {
+				for limit := 0; limit <= n+1; limit++ {
+					for f := 0; f < 3; f++ {
+						for _, lin := range []bool{false, true} {
+							req := &regattapb.RangeRequest{Table: []byte(name), Key: B(lo), RangeEnd: B(hi), Limit: int64(limit), KeysOnly: f == 1, CountOnly: f == 2, Linearizable: lin}
+							want := m.Range(&regattapb.RequestOp_Range{Key: req.Key, RangeEnd: req.RangeEnd, Limit: req.Limit, KeysOnly: req.KeysOnly, CountOnly: req.CountOnly})
+							desc := fmt.Sprintf("content %s Range{key=%q end=%q limit=%d keys_only=%v count_only=%v linearizable=%v}", c.name, lo, hi, limit, req.KeysOnly, req.CountOnly, lin)
+							cs := map[string]any{"kind": "api", "request": desc}
+							// streamed
+							st := &recKV{ctx: ctx}
+							if err := srv.IterateRange(req, st); err != nil {
+								r.Violate("api/IterateRange-error", desc+": "+err.Error(), cs)
+								continue
+							}
+							var all []*regattapb.KeyValue
+							var cnt int64
+							for i, msg := range st.msgs {
+								all = append(all, msg.Kvs...)
+								cnt += msg.Count
+								last := i == len(st.msgs)-1
+								if !last && !msg.More {
+									r.Violate("api/stream-more-missing-on-inner-message", desc, cs)
+								}
+								if last && msg.More != want.More {
+									r.Violate("api/stream-last-more-flag", fmt.Sprintf("%s: more=%v want %v", desc, msg.More, want.More), cs)
+								}
+								if msg.Header == nil || msg.Header.ShardId == 0 {
+									r.Violate("api/stream-message-without-header", desc, cs)
+								}
+								if sz := msg.SizeVT(); sz >= grpcLimit {
+									r.Violate("api/stream-message-too-large", fmt.Sprintf("%s: %d bytes", desc, sz), cs)
+								}
+							}
+							if len(st.msgs) == 0 {
+								r.Violate("api/stream-no-message", desc, cs)
+							}
+							if !fsmx.EqualKVs(all, want.Kvs) {
+								r.Violate("api/stream-content", fmt.Sprintf("%s: got %s want %s", desc, fsmx.KVs(all), fsmx.KVs(want.Kvs)), cs)
+							}
+							if cnt != want.Count {
+								r.Violate("api/stream-total-count", fmt.Sprintf("%s: %d want %d", desc, cnt, want.Count), cs)
+							}
+							// unary
+							resp, err := srv.Range(ctx, req)
+							if err != nil {
+								r.Violate("api/Range-error", desc+": "+err.Error(), cs)
+								continue
+							}
+							k := len(resp.Kvs)
+							if req.CountOnly {
+								if resp.Count != want.Count || resp.More != want.More || k != 0 {
+									r.Violate("api/unary-count-only", fmt.Sprintf("%s: count=%d more=%v kvs=%d want %d %v", desc, resp.Count, resp.More, k, want.Count, want.More), cs)
+								}
+							} else {
+								if k > len(want.Kvs) || !fsmx.EqualKVs(resp.Kvs, want.Kvs[:k]) || (k == 0 && len(want.Kvs) > 0) {
+									r.Violate("api/unary-content", fmt.Sprintf("%s: got %s want a non-empty prefix of %s", desc, fsmx.KVs(resp.Kvs), fsmx.KVs(want.Kvs)), cs)
+								} else {
+									if remain := k < len(want.Kvs) || want.More; resp.More != remain {
+										r.Violate("api/unary-more-flag", fmt.Sprintf("%s: returned %d of %d, more=%v", desc, k, len(want.Kvs), resp.More), cs)
+									}
+									if resp.Count != int64(k) {
+										r.Violate("api/unary-count", fmt.Sprintf("%s: count=%d returned %d", desc, resp.Count, k), cs)
+									}
+								}
+							}
+							r.Outcome("api"+desc+fmt.Sprint(len(st.msgs), cnt, k), cnt > 0)
+							r.AddExtra("api_level_requests", 2)
+						}
+					}
+				}
+			}
+		}
+		_ = eng.DeleteTable(name)
+	}
 }
